@@ -273,6 +273,10 @@ def reader(prog, rep):
     wt = u.func("netbuf_read_wait")
     if wt is None:
         raise cdb.AnalysisBroken("anchor missing: netbuf_read_wait")
+    for fn in ("netbuf_read_wait", "netbuf_read_peek", "netbuf_read_consume", "callback_read", "callback_success", "netbuf_read_wait_cancel", "netbuf_read_resize_buffer"):
+        g = u.func(fn)
+        if g is None or not rep.names(g, "R"):
+            return
     R = ("*", ("v", "R"))
     BUF, BUFLEN, BUFPOS, DATALEN = [(".", R, x) for x in ("buf", "buflen", "bufpos", "datalen")]
     ls = launches(wt)
